@@ -150,10 +150,9 @@ pub fn model_bin(op: &str, a: &V, b: &V) -> Exp {
         Some(v) => {
             if unwidenable {
                 Exp::ValOrFail(v)
-            } else if op == "%" && x == i64::MIN as i128 && y == -1 {
-                // mathematically 0; CEL implementations report overflow here
-                Exp::ValOrFail(v)
             } else {
+                // includes i64::MIN % -1: mathematically 0, representable, hence 0 (not the overflow
+                // some CEL implementations report)
                 Exp::Val(v)
             }
         }
@@ -250,13 +249,18 @@ pub fn check_bin(op: &str, a: &V, b: &V, sub: &str, pooled: bool, acc: &mut Acc)
     let binds = vec![("x".to_string(), a.clone()), ("y".to_string(), b.clone())];
     let lit = eval(&lit_src, &[]).res.sum();
     let var = eval(&var_src, &binds).res.sum();
-    acc.eval_only(sub, 1);
+    // one operand bound, the other a literal (a fold or peephole may look at just one side)
+    let vl_src = format!("x {} {}", op, lb);
+    let lv_src = format!("{} {} y", la, op);
+    let vl = eval(&vl_src, &binds).res.sum();
+    let lv = eval(&lv_src, &binds).res.sum();
+    acc.eval_only(sub, 3);
     acc.sample(&class, || {
         json!({"expr": lit_src, "bound_form": var_src, "x": a.canon(), "y": b.canon(),
                "expected": exp_show(&exp), "literal_form": lit.show(), "bound_result": var.show()})
     });
     let mut out = Vec::new();
-    for (form, got, src) in [("lit", &lit, &lit_src), ("var", &var, &var_src)] {
+    for (form, got, src) in [("lit", &lit, &lit_src), ("var", &var, &var_src), ("var-lit", &vl, &vl_src), ("lit-var", &lv, &lv_src)] {
         if let Some(mode) = judge(&exp, got) {
             let mode = if mode == "panic" {
                 match got {
@@ -274,7 +278,20 @@ pub fn check_bin(op: &str, a: &V, b: &V, sub: &str, pooled: bool, acc: &mut Acc)
             ));
         }
     }
-    // the two forms must agree with each other even where the model is silent
+    // the forms must agree with each other even where the model is silent
+    if out.is_empty() {
+        for (name, r, src) in [("var-lit", &vl, &vl_src), ("lit-var", &lv, &lv_src)] {
+            if r.coarse() != var.coarse() {
+                out.push(Failure::new(
+                    format!("c03:{}:{},{}:forms-disagree", op_name(op), a.type_name(), b.type_name()),
+                    format!("{} -> {} but {} with x={} y={} -> {}", src, r.show(), var_src, a.canon(), b.canon(), var.show()),
+                    json!({"kind": "bin", "op": op, "a": vjson(a), "b": vjson(b), "form": name,
+                           "mixed_result": r.show(), "bound_result": var.show()}),
+                ));
+                break;
+            }
+        }
+    }
     if out.is_empty() && lit.coarse() != var.coarse() {
         out.push(Failure::new(
             format!("c03:{}:{},{}:forms-disagree", op_name(op), a.type_name(), b.type_name()),
@@ -348,6 +365,74 @@ pub fn check_neg_run(a: &V, n: usize, sub: &str, acc: &mut Acc) -> Vec<Failure> 
     }
     out
 }
+
+/// `a op1 b op2 c` with operators of equal precedence is `(a op1 b) op2 c`, whichever operands are
+/// literals: every one of the 8 literal/bound patterns against the model applied twice
+pub fn check_chain3(op1: &str, op2: &str, vals: [&V; 3], sub: &str, acc: &mut Acc) -> Vec<Failure> {
+    let exp = match model_bin(op1, vals[0], vals[1]) {
+        Exp::Val(v) => model_bin(op2, &v, vals[2]),
+        Exp::Fail => Exp::Fail,
+        _ => Exp::Unspecified,
+    };
+    let canon = format!("{} {} {} {} {}", vals[0].canon(), op1, vals[1].canon(), op2, vals[2].canon());
+    let class = format!("chain3:{}{}", op_name(op1), op_name(op2));
+    acc.case(sub, &canon, true, &class);
+    if let Exp::Unspecified = exp {
+        acc.skip("model: unspecified operand combination (only totality and agreement of the forms are checked)");
+    }
+    let lits: Vec<String> = match vals.iter().map(|v| v.lit()).collect::<Option<Vec<_>>>() {
+        Some(l) => l,
+        None => return vec![],
+    };
+    let names = ["x", "y", "z"];
+    let binds: Vec<(String, V)> = names.iter().zip(vals.iter()).map(|(n, v)| (n.to_string(), (*v).clone())).collect();
+    let mut out = Vec::new();
+    let mut first: Option<(String, Sum)> = None;
+    for mask in 0..8u32 {
+        let t: Vec<&str> = (0..3).map(|i| if mask & (1 << i) != 0 { lits[i].as_str() } else { names[i] }).collect();
+        let src = format!("{} {} {} {} {}", t[0], op1, t[1], op2, t[2]);
+        let got = eval(&src, &binds).res.sum();
+        acc.eval_only(sub, 1);
+        if mask == 0 {
+            acc.sample(&class, || json!({"expr": src, "x": vals[0].canon(), "y": vals[1].canon(), "z": vals[2].canon(), "expected": exp_show(&exp), "result": got.show()}));
+        }
+        if let Some(mode) = judge(&exp, &got) {
+            out.push(Failure::new(
+                format!("c03:chain3:{}{}:{}", op_name(op1), op_name(op2), mode),
+                format!("{} with x={} y={} z={}: grouping to the left gives {}, got {}", src, vals[0].canon(), vals[1].canon(), vals[2].canon(), exp_show(&exp), got.show()),
+                json!({"kind": "chain3", "op1": op1, "op2": op2, "a": vjson(vals[0]), "b": vjson(vals[1]), "c": vjson(vals[2]), "literal_mask": mask, "source": src}),
+            ));
+            break;
+        }
+        match &first {
+            None => first = Some((src.clone(), got.clone())),
+            Some((s0, r0)) => {
+                if r0.coarse() != got.coarse() {
+                    out.push(Failure::new(
+                        format!("c03:chain3:{}{}:forms-disagree", op_name(op1), op_name(op2)),
+                        format!("{} -> {} but {} -> {} (x={} y={} z={})", s0, r0.show(), src, got.show(), vals[0].canon(), vals[1].canon(), vals[2].canon()),
+                        json!({"kind": "chain3", "op1": op1, "op2": op2, "a": vjson(vals[0]), "b": vjson(vals[1]), "c": vjson(vals[2]), "literal_mask": mask, "source": src}),
+                    ));
+                    break;
+                }
+            }
+        }
+    }
+    out
+}
+
+pub fn chain_pool() -> Vec<V> {
+    vec![
+        V::Int(0), V::Int(1), V::Int(-1), V::Int(2), V::Int(i64::MAX), V::Int(i64::MIN), V::Int(9007199254740993),
+        V::UInt(1), V::UInt(u64::MAX),
+        V::F(1.0), V::F(0.5), V::F(1e16), V::F(-0.0),
+    ]
+}
+
+pub const CHAIN_OPS: &[(&str, &str)] = &[
+    ("+", "+"), ("+", "-"), ("-", "+"), ("-", "-"),
+    ("*", "*"), ("*", "/"), ("*", "%"), ("/", "*"), ("/", "/"), ("/", "%"), ("%", "*"), ("%", "/"), ("%", "%"),
+];
 
 /// Lossless JSON encoding of a scalar operand for replay files.
 pub fn vjson(v: &V) -> Value {
@@ -466,6 +551,25 @@ fn run(opts: &Opts, acc: &mut Acc) {
     });
     acc.mark_exhaustive("nonnumeric", "every non-numeric representative x numeric kinds and x itself, both sides");
 
+    // (2b) chains of three operands, every literal/bound pattern
+    let cp = chain_pool();
+    let mut pts: Vec<(usize, usize, usize, usize)> = Vec::new();
+    for o in 0..CHAIN_OPS.len() {
+        for i in 0..cp.len() {
+            for j in 0..cp.len() {
+                for k in 0..cp.len() {
+                    pts.push((o, i, j, k));
+                }
+            }
+        }
+    }
+    par_chunks(acc, opts.threads, &pts, |(o, i, j, k), a| {
+        for f in check_chain3(CHAIN_OPS[*o].0, CHAIN_OPS[*o].1, [&cp[*i], &cp[*j], &cp[*k]], "chain3", a) {
+            a.fail(f);
+        }
+    });
+    acc.mark_exhaustive("chain3", "13 same-precedence operator pairs x 13^3 boundary operands x 8 literal/bound patterns");
+
     // (3) unary minus
     let mut negs = pool.clone();
     negs.extend(misc.clone());
@@ -511,6 +615,19 @@ fn replay(_opts: &Opts, d: &Value, acc: &mut Acc) {
                 return;
             };
             check_bin(op, &a, &b, "replay", false, acc)
+        }
+        "chain3" => {
+            let (Some(op1), Some(op2), Some(a), Some(b), Some(c)) = (
+                d.get("op1").and_then(|x| x.as_str()),
+                d.get("op2").and_then(|x| x.as_str()),
+                d.get("a").and_then(vunjson),
+                d.get("b").and_then(vunjson),
+                d.get("c").and_then(vunjson),
+            ) else {
+                acc.inconclusive.push("bad C03 replay file".into());
+                return;
+            };
+            check_chain3(op1, op2, [&a, &b, &c], "replay", acc)
         }
         "neg" => {
             let Some(a) = d.get("a").and_then(vunjson) else {
